@@ -18,6 +18,7 @@ struct Runner {
     exe: std::path::PathBuf,
     scratch: std::path::PathBuf,
     runs: usize,
+    also_model: bool,
 }
 
 impl Runner {
@@ -25,9 +26,12 @@ impl Runner {
         self.runs += 1;
         let path = self.scratch.join(format!("cand-{}.json", std::process::id()));
         std::fs::write(&path, serde_json::to_vec(fam).unwrap()).unwrap();
-        let mut child = match Command::new(&self.exe)
-            .arg("replay")
-            .arg(&path)
+        let mut cmd = Command::new(&self.exe);
+        cmd.arg("replay").arg(&path);
+        if self.also_model {
+            cmd.arg("--also-model");
+        }
+        let mut child = match cmd
             .stdout(std::process::Stdio::piped())
             .stderr(std::process::Stdio::null())
             .spawn()
@@ -112,7 +116,8 @@ pub fn cmd_minimise(args: &[String]) -> i32 {
     };
     fam.replay = true;
     let scratch = std::path::Path::new(out).parent().unwrap_or(std::path::Path::new(".")).to_path_buf();
-    let mut r = Runner { exe: std::env::current_exe().unwrap(), scratch, runs: 0 };
+    let also_model = args.iter().any(|a| a == "--also-model");
+    let mut r = Runner { exe: std::env::current_exe().unwrap(), scratch, runs: 0, also_model };
     let target = r.run(&fam);
     if matches!(target, Verdict::Clean | Verdict::Invalid) {
         eprintln!("memsim: the replay file does not fail ({:?}); nothing to minimise", target);
